@@ -732,6 +732,31 @@ func (g *verifC15Gen) editSet() []verifC15ConfSpec {
 	return out
 }
 
+// resolvable says whether a name resolves in the generator's current conf set (regexp called directly).
+func (g *verifC15Gen) resolvable(n string) bool {
+	for _, s := range g.cur {
+		if s.name == n {
+			return true
+		}
+	}
+	for _, s := range g.cur { // all universe names are valid path names
+		if expr, ok := verifC15Expr(s.name); ok && regexp.MustCompile(expr).MatchString(n) {
+			return true
+		}
+	}
+	return false
+}
+
+func (g *verifC15Gen) pickResolvable() string {
+	for try := 0; try < 6; try++ {
+		n := g.pickName()
+		if g.resolvable(n) {
+			return n
+		}
+	}
+	return g.pickName()
+}
+
 func verifC15GenHistory(r *verifutil.Rand, thorough bool) []string {
 	g := &verifC15Gen{r: r}
 	g.universe = append(g.universe, verifC15Statics...)
@@ -741,6 +766,9 @@ func verifC15GenHistory(r *verifutil.Rand, thorough bool) []string {
 		}
 	}
 	g.cur = g.freshSet()
+	for len(g.cur) == 0 && r.Chance(3, 4) {
+		g.cur = g.freshSet()
+	}
 	var sb strings.Builder
 	fmt.Fprintf(&sb, "reset %d", len(g.universe))
 	for _, u := range g.universe {
@@ -748,6 +776,33 @@ func verifC15GenHistory(r *verifutil.Rand, thorough bool) []string {
 		sb.WriteString(verifutil.HexS(u))
 	}
 	ops := []string{sb.String() + " " + verifC15ConfSet(g.cur, g.universe)}
+	// the generator's guess of which names have a publisher / which readers are attached (only a bias)
+	pubs := []string{}
+	rds := []int{}
+	pub := func() {
+		n := g.pickResolvable()
+		if r.Chance(1, 8) {
+			n = g.pickName()
+		}
+		pubs = append(pubs, n)
+		ops = append(ops, "pub "+verifutil.HexS(n))
+	}
+	read := func() {
+		n := g.pickName()
+		if len(pubs) > 0 && r.Chance(4, 5) {
+			n = pubs[r.Intn(len(pubs))]
+		}
+		id := 1 + r.Intn(5)
+		rds = append(rds, id)
+		ops = append(ops, fmt.Sprintf("read %s %d", verifutil.HexS(n), id))
+	}
+	// most histories start with some clients, so that reloads meet live regex paths
+	for k := r.Intn(4); k > 0; k-- {
+		pub()
+		if r.Chance(1, 2) {
+			read()
+		}
+	}
 	n := 4 + r.Intn(10)
 	if thorough {
 		n += r.Intn(20)
@@ -766,26 +821,74 @@ func verifC15GenHistory(r *verifutil.Rand, thorough bool) []string {
 			b := g.editSet()
 			g.cur = b
 			ops = append(ops, fmt.Sprintf("reload2 %d %s %s", r.Intn(3), verifC15ConfSet(a, g.universe), verifC15ConfSet(b, g.universe)))
+		case x < 13:
+			pub()
 		case x < 14:
-			ops = append(ops, "pub "+verifutil.HexS(g.pickName()))
-		case x < 15:
-			ops = append(ops, "unpub "+verifutil.HexS(g.pickName()))
+			if len(pubs) > 0 && r.Chance(3, 4) {
+				k := r.Intn(len(pubs))
+				ops = append(ops, "unpub "+verifutil.HexS(pubs[k]))
+				pubs = append(pubs[:k], pubs[k+1:]...)
+			} else {
+				ops = append(ops, "unpub "+verifutil.HexS(g.pickName()))
+			}
 		case x < 18:
-			ops = append(ops, fmt.Sprintf("read %s %d", verifutil.HexS(g.pickName()), 1+r.Intn(4)))
+			read()
 		default:
-			ops = append(ops, fmt.Sprintf("unread %d", 1+r.Intn(4)))
+			if len(rds) > 0 && r.Chance(3, 4) {
+				k := r.Intn(len(rds))
+				ops = append(ops, fmt.Sprintf("unread %d", rds[k]))
+				rds = append(rds[:k], rds[k+1:]...)
+			} else {
+				ops = append(ops, fmt.Sprintf("unread %d", 1+r.Intn(5)))
+			}
 		}
 	}
 	return ops
 }
 
+// verifC15Class buckets an (op, answer) pair: op kind, status, and what happened to the live paths.
 func verifC15Class(op, impl string) string {
 	w := strings.SplitN(op, " ", 2)[0]
-	st := strings.SplitN(impl, " ", 2)[0]
-	if w == "reload2" {
-		w += strings.SplitN(op, " ", 3)[1]
+	f := strings.Fields(impl)
+	if len(f) == 0 {
+		return w + "/empty"
 	}
-	return w + "/" + st
+	if w == "reload2" {
+		w += "-m" + strings.SplitN(op, " ", 3)[1]
+	}
+	if !strings.HasPrefix(w, "reload") {
+		return w + "/" + f[0]
+	}
+	kept, fresh, clients := 0, 0, 0
+	for _, t := range f[1:] {
+		q := strings.Split(t, "/")
+		if len(q) != 7 {
+			continue
+		}
+		if q[4] == "K" {
+			kept++
+			if q[5] == "P" {
+				clients++
+			}
+		} else {
+			fresh++
+		}
+	}
+	c := w + "/" + f[0]
+	switch {
+	case kept > 0 && fresh > 0:
+		c += "/kept+new"
+	case kept > 0:
+		c += "/kept"
+	case fresh > 0:
+		c += "/new"
+	default:
+		c += "/nopaths"
+	}
+	if clients > 0 {
+		c += "+clients"
+	}
+	return c
 }
 
 func TestVerifC15(t *testing.T) {
@@ -799,7 +902,7 @@ func TestVerifC15(t *testing.T) {
 	synctest.Test(t, func(t *testing.T) {
 		defer verifC15Teardown()
 		verifutil.Main(t, &verifutil.Harness{
-			ID: "C15", Exec: verifC15Exec, Quick: 250, Thorough: 6000, Class: verifC15Class,
+			ID: "C15", Exec: verifC15Exec, Quick: 250, Thorough: 5000, Class: verifC15Class,
 			Gen: func(r *verifutil.Rand, i int, th bool) []string { return verifC15GenHistory(r, th) },
 			NonTrivial: func(op, impl string) bool { return !strings.HasPrefix(op, "reset") },
 		})
